@@ -31,8 +31,9 @@ TARGETS = {
     'vakt/storage/memory.py': {'MemoryStorage': ['add', 'get', 'get_all', 'find_for_inquiry', 'update', 'delete']},
     'vakt/storage/abc.py': {'Storage': ['retrieve_all', '_check_limit_and_offset']},
     'vakt/storage/migration.py': {'MigrationSet': ['_get_migrations', 'up', 'down']},
-    'vakt/storage/redis.py': {'RedisStorage': ['add', 'get', 'update', 'delete']},
-    'vakt/storage/mongo.py': {'MongoStorage': ['add', 'get', 'update', 'delete']},
+    'vakt/storage/redis.py': {'RedisStorage': ['add', 'get', 'update', 'delete', 'get_all', 'find_for_inquiry', '__feed_policies']},
+    'vakt/storage/mongo.py': {'MongoStorage': ['add', 'get', 'update', 'delete', 'get_all', '__feed_policies']},
+    'vakt/storage/sql/__init__.py': {'SQLStorage': ['add', 'get', 'update', 'delete', 'get_all']},
     'vakt/rules/operator.py': {'*': ['satisfied']}, 'vakt/rules/list.py': {'*': ['satisfied']},
     'vakt/rules/logic.py': {'*': ['satisfied']}, 'vakt/rules/inquiry.py': {'*': ['satisfied']},
     'vakt/rules/string.py': {'Equal': ['satisfied'], 'PairsEqual': ['satisfied'], 'StartsWith': ['satisfied'],
@@ -66,6 +67,8 @@ def worker(i, jobs, results, lock):
     if rc:
         print('worker %d: baseline does not build: %s' % (i, out), file=sys.stderr)
         return
+    gen = os.path.join(lean, 'Gen')
+    baseline = {f: open(os.path.join(gen, f)).read() for f in os.listdir(gen) if not f.startswith('Equiv') and f != 'Lemmas.lean'}
     while True:
         try:
             rel, tree, path, kind, lineno = jobs.get_nowait()
@@ -86,7 +89,8 @@ def worker(i, jobs, results, lock):
                 continue
             open(target, 'w').write(new_src)
             t0 = time.time()
-            changed, _tr, untr = pytolean.regenerate(repo, lean)
+            pytolean.regenerate(repo, lean)
+            changed = any(open(os.path.join(gen, f)).read() != t for f, t in baseline.items())     # (against the unmutated tree)
             if not changed:
                 rec['status'] = 'survived (the generated Lean did not change)'
                 continue
@@ -110,11 +114,15 @@ def main():
     ap.add_argument('--workers', type=int, default=4)
     ap.add_argument('--limit', type=int, default=0)
     ap.add_argument('--out', default='/tmp/transmut_results.jsonl')
+    ap.add_argument('--file', default=None, help='only files whose path contains this')
+    ap.add_argument('--only', default=None, help='a results file: re-run the mutants recorded there as survivors')
     args = ap.parse_args()
     os.makedirs(ROOT, exist_ok=True)
     jobs = queue.Queue()
     n = 0
     for rel, spec in TARGETS.items():
+        if args.file and args.file not in rel:
+            continue
         src = open(os.path.join('/repo', rel)).read()
         tree = ast.parse(src)
         ranges = line_ranges(tree, spec)
@@ -127,6 +135,22 @@ def main():
                 continue
             jobs.put((rel, tree, path, kind, ln))
             n += 1
+    if args.only:
+        want = set()
+        for l in open(args.only):
+            try:
+                r = json.loads(l)
+            except ValueError:
+                continue
+            if r.get('status', '').startswith('survived'):
+                want.add((r['file'], r['line'], r['kind']))
+        items = []
+        while not jobs.empty():
+            items.append(jobs.get())
+        items = [it for it in items if (it[0], it[4], it[3]) in want]
+        for it in items:
+            jobs.put(it)
+        n = len(items)
     if args.limit:
         items = []
         while not jobs.empty():
